@@ -394,7 +394,7 @@ impl Accept {
     fn accept_one(&mut self, mut conn: Conn) {
         loop {
             #[cfg(actix_net_verif)]
-            crate::verif::point("turn", self.next);
+            crate::verif::point("turn", verif::turn_state(self));
             let next = self.next();
             let idx = next.idx();
 
